@@ -46,6 +46,10 @@ type subWatch struct {
 	wt    *watcher
 	subs  []*simSub
 	check bool // report C19 clauses
+	// kick, if set, makes the chain change now (used while the goroutine
+	// that computed a new subscription's backlog is parked before the
+	// subscription is registered).
+	kick func()
 }
 
 func (sw *subWatch) open(height uint32) *simSub {
@@ -86,18 +90,34 @@ func (sw *subWatch) open(height uint32) *simSub {
 		ch <- res{s, err}
 	}()
 	synctest.Wait()
+	throughPark := false
+	if w.parkedAt() == "ntfns.backlogBuilt" {
+		// The backlog is computed, the subscription not yet registered,
+		// and whoever does both is parked in between (hook H7): let the
+		// chain change meanwhile, then wait for the call.
+		throughPark = true
+		w.rc.Probe("subscription_parked_between_backlog_and_registration")
+		if sw.kick != nil {
+			sw.kick()
+		}
+		end := time.Now().Add(time.Minute)
+		for len(ch) == 0 && time.Now().Before(end) && !w.halt {
+			w.stepUntil(end, nil)
+			synctest.Wait()
+		}
+	}
 	select {
 	case r := <-ch:
 		if r.err != nil {
 			w.rc.Probe("subscribe_refused")
 			w.rc.Logf("t=%s subscribe(%d) refused: %v", w.clock(), height, r.err)
-			if height <= ft && w.parkedAt() != "cfheaders.afterStoreWrite" && sw.check {
+			if height <= ft && w.parkedAt() != "cfheaders.afterStoreWrite" && !throughPark && sw.check {
 				w.rc.Failf("backlog-refused-at-or-below-committed-tip", nil,
 					"Subscribe(%d) was refused (%v) although the committed filter tip is %d (parked at %q)", height, r.err, ft, w.parkedAt())
 			}
 			return nil
 		}
-		if height > ft {
+		if height > ft && !throughPark {
 			if sw.check {
 				w.rc.Failf("backlog-beyond-committed-tip-accepted", nil, "Subscribe(%d) succeeded although the committed filter tip is %d", height, ft)
 			}
@@ -113,7 +133,7 @@ func (sw *subWatch) open(height uint32) *simSub {
 		// each with the stored header. (Not judged while a filter-header
 		// batch is stored but not yet announced: its blocks then arrive as
 		// events.)
-		if height != 0 && w.parkedAt() != "cfheaders.afterStoreWrite" {
+		if height != 0 && w.parkedAt() != "cfheaders.afterStoreWrite" && !throughPark {
 			got := 0
 			for {
 				var n blockntfns.BlockNtfn
@@ -523,7 +543,13 @@ func runFilters(t *testing.T, rc *core.RunCtx) {
 		for i, k := 0, 1+tp.Intn(3); i < k; i++ {
 			w.armYield(yieldSites[tp.Intn(len(yieldSites))], 1+tp.Intn(8), time.Duration(1+tp.Intn(3000))*time.Millisecond)
 		}
+		if rc.Prop == "C19" && tp.Chance(1, 2) {
+			w.armYield("ntfns.backlogBuilt", 1+tp.Intn(2), time.Duration(1+tp.Intn(3000))*time.Millisecond)
+		}
 		w.onParked = func(site string) {
+			if site == "ntfns.backlogBuilt" {
+				return // a subscription is being opened right now
+			}
 			_, ft, err := w.cs.RegFilterHeaders.ChainTip()
 			if err != nil {
 				return
@@ -565,6 +591,11 @@ func runFilters(t *testing.T, rc *core.RunCtx) {
 		}
 	}
 
+	sw.kick = func() {
+		honestTip = w.mineChain(honestTip, 1, time.Minute, time.Now().Add(-5*time.Second), 0, "", &plan.salt, 70)
+		rc.Logf("t=%s chain grows by 1 to %d while a subscription is between backlog and registration", w.clock(), honestTip.Height)
+		follow(honestTip, true)
+	}
 	nEv := tp.Intn(6)
 	if thorough {
 		nEv = tp.Intn(12)
